@@ -824,6 +824,28 @@ func main() {
 	}
 	r.Set("subjects", labels)
 
+	// the FIRST value of a message type that csproto ever sees in a process may be a typed nil pointer (a legal probe:
+	// csproto.MsgType / HasExtension on a nil message); whatever csproto remembers per Go type from that call must not
+	// change the answers for real messages of the type. Every second subject of each runtime is probed that way before
+	// anything else touches its type; the explorations below then run "after a nil probe" for those and "first seen with
+	// a real message" for the others.
+	var probed []string
+	seenRT := map[string]int{}
+	for _, s := range subs {
+		seenRT[s.rt]++
+		if seenRT[s.rt]%2 == 0 || len(s.exts) == 0 {
+			continue
+		}
+		nilMsg := reflect.Zero(reflect.TypeOf(s.newMsg())).Interface()
+		kNil := csproto.MsgType(nilMsg)
+		_ = guard0(func() { _ = csproto.HasExtension(nilMsg, s.exts[0].desc) })
+		if kReal := csproto.MsgType(s.newMsg()); kReal != kNil {
+			r.Fail("nil-probe/MsgType-of-a-real-message-differs-from-MsgType-of-a-nil-message-of-the-same-type/"+s.rt, s.label, map[string]any{"subject": s.label, "MsgType(nil)": fmt.Sprint(kNil), "MsgType(real)": fmt.Sprint(kReal)})
+		}
+		probed = append(probed, s.label)
+	}
+	r.Set("subjects_first_seen_as_typed_nil", probed)
+
 	n := ev.Pick(r, 4, 6)
 	var jobs []*explorer
 	add := func(s *subject, set []*ext, pair int) {
